@@ -447,6 +447,14 @@ def linearAdjoint (jt : Bool → Nat → Nat → (V α → V α) → (V α → V
 
 end linadj
 
+/-- `linop.jacobian(F, u)` (`_util.py`): `eval_fn = F.jvp(u, ·)[1]`, `adj_fn = F.vjp(u, conjugate=True)[1]`, where
+    `Operator.vjp(conjugate=True)` wraps `jax.vjp`'s pull-back `G` as `v ↦ G(v.conj()).conj()` -/
+def Op.jacobian [HasConj α] (m n : Nat) (jvp G : V α → V α) : Op α where
+  nin := n
+  nout := m
+  eval := jvp
+  adj := conjFun G
+
 /-! ### Derivation trees -/
 
 /-- how a derived operator was obtained from leaves (leaves are indices into an environment) -/
